@@ -252,7 +252,7 @@ def materialise(thorough, families):
 
 def run(R):
     shards = []
-    for fam, n in (('valid', 16), ('fault', 32), ('shape', 16), ('suite', 4), ('envelope', 16), ('ta1', 4), ('address', 4), ('mutant', 48), ('hostile', 32)):
+    for fam, n in (('valid', 16), ('fault', 32), ('shape', 16), ('suite', 4), ('envelope', 16), ('ta1', 4), ('address', 4), ('mixed', 8), ('mutant', 48), ('hostile', 32)):
         for p in range(n):
             shards.append((fam, p, n, R.thorough))
     materialise(R.thorough, sorted(set(s[0] for s in shards)))
